@@ -40,20 +40,65 @@ class Rows:
     def toks_text(self, key):
         return tr_decoders.coq_toks(self.by_key[key][5])
 
-    def enum_words(self, key):
-        """word index -> list of member values, for enum conversions applied directly to a START word"""
-        out = {}
+    def enum_fields(self, key, ev='EFirst'):
+        """[(enum, word index, shift, mask, signed bits or None)] for every enum conversion of the row whose source is a
+        (shifted / masked) START word"""
         t = self.toks_text(key)
-        for e, i in re.findall(r'TEnumName "([^"]+)" \(W EFirst (\d)\)', t):
-            if not e.startswith('host:'):
-                out.setdefault(int(i), []).extend(v for _, v in self.enums[e][0] if v >= 0)
-        for e, bits, i in re.findall(r'TSEnumName "([^"]+)" (\d+) \(W EFirst (\d)\)', t):
-            out.setdefault(int(i), []).extend(v % (1 << 64) if v >= 0 else (v % (1 << int(bits))) for _, v in self.enums[e][0])
+        out = []
+        for m in re.finditer(r'T(S?)EnumName "([^"]+)" (?:(\d+) )?(\((?:[^()]|\((?:[^()]|\([^()]*\))*\))*\))', t):
+            signed, e, bits, src = m.group(1), m.group(2), m.group(3), m.group(4)
+            shift, mask = 0, None
+            cur = src
+            ok = True
+            while True:
+                mm = re.fullmatch(r'\(W (EFirst|ELast) (\d)\)', cur)
+                if mm:
+                    if mm.group(1) == ev:
+                        out.append((e, int(mm.group(2)), shift, mask, int(bits) if signed else None))
+                    break
+                mm = re.fullmatch(r'\(SAnd (.*) (\d+)\)', cur)
+                if mm:
+                    mask = int(mm.group(2)) if mask is None else mask & int(mm.group(2))
+                    cur = mm.group(1)
+                    continue
+                mm = re.fullmatch(r'\(SShr (.*) (\d+)\)', cur)
+                if mm:
+                    shift += int(mm.group(2))
+                    if mask is not None:
+                        mask <<= int(mm.group(2))
+                    cur = mm.group(1)
+                    continue
+                break
+        return out
+
+    def enum_words(self, key, ev='EFirst'):
+        """word index -> list of in-domain values (enum fields of the same word are combined)"""
+        per_word = {}
+        for e, i, shift, mask, bits in self.enum_fields(key, ev):
+            if e.startswith('host:'):
+                continue
+            vals = []
+            for _, v in self.enums[e][0]:
+                if v < 0:
+                    v %= (1 << (bits or 64))
+                w = v << shift
+                if mask is None or (w & ~mask) == 0:
+                    vals.append((w, mask if mask is not None else ((1 << 64) - 1)))
+            per_word.setdefault(i, []).append(vals)
+        out = {}
+        for i, fields in per_word.items():
+            combos = []
+            for _ in range(12):
+                w = 0
+                for vals in fields:
+                    if vals:
+                        w |= vals[hash((i, _, len(vals), w)) % len(vals)][0]
+                combos.append(w)
+            out[i] = sorted(set(combos))
         return out
 
     def host_enum_words(self, key):
-        t = self.toks_text(key)
-        return {int(i): e for e, i in re.findall(r'TEnumName "(host:[^"]+)" \(W EFirst (\d)\)', t)}
+        return {i: e for e, i, shift, mask, bits in self.enum_fields(key) if e.startswith('host:')}
 
     def uses_paths(self, key):
         return 'TPath' in self.toks_text(key) or 'CPath' in self.toks_text(key)
@@ -105,7 +150,7 @@ def to_case(key, first, last, tid, paths, gstr, res):
     else:
         obs = f'(inl {res["err"]})'
     ps = clist([f'({cN(v)}, {vlib.cbytes(t)})' for v, t in paths])
-    gs = clist([f'({cN(k)}, {vlib.cstr_bytes(t)})' for k, t in gstr])
+    gs = clist([f'({cN(k)}, {vlib.cstr_bytes(t)})' for k, t in dict(gstr).items()])
     return (f'("{key}", {clist([cN(w) for w in first])}, {clist([cN(w) for w in last])}, {cN(tid)}, {ps}, {gs}, {obs})')
 
 
@@ -153,6 +198,14 @@ def in_domain_first(R, key, rng, base=None):
         if vals:
             first[i] = rng.choice(vals)
     return first
+
+
+def in_domain_last(R, key, rng, last):
+    last = list(last)
+    for i, vals in R.enum_words(key, 'ELast').items():
+        if vals:
+            last[i] = rng.choice(vals)
+    return last
 
 
 def call_keys(R):
